@@ -106,6 +106,7 @@ type VC struct {
 	curState  *State
 	ghostTok  bool
 
+	inlineDepth int
 	callPost   map[ssa.Instruction]*State
 	epochNext  map[int]string
 	roms       map[string]string // global loc const -> ROM array const (immutable global arrays)
@@ -125,6 +126,7 @@ type loopInfo struct {
 	hdrSt  *State
 	lc     *LoopContract
 	decOld string
+	auto   []autoInv
 }
 
 type rangeState struct {
